@@ -330,6 +330,26 @@ var entryPoints = []entryPoint{
 	{"list.SetTF-through-padding", func(v any) slot {
 		return slot{l: at.NewList().SetTF("#2.x", 1).SetTF("#1#0", v).GetList(1), idx: 0}
 	}},
+	{"object.SetTF-through-a-key-that-repeats", func(v any) slot {
+		o := at.NewObject("node", at.NewObject("id", 1)).SetTF(".node.node.w", v)
+		return slot{o: o.GetObject("node").GetObject("node"), key: "w"}
+	}},
+	{"object.SetTF-below-a-key-the-root-holds-as-a-scalar", func(v any) slot {
+		o := at.NewObject("size", 3, "box", at.NewObject("size", at.NewObject("w", 2.5))).SetTF(".box.size.h", v)
+		inner := o.GetObject("box").GetObject("size")
+		if !inner.KeyExists("w") || o.TypeOf("size") != at.TypeInt {
+			panic("SetTF(\".box.size.h\") replaced what was there: " + o.String())
+		}
+		return slot{o: inner, key: "h"}
+	}},
+	{"list.SetTF-through-an-index-that-repeats", func(v any) slot {
+		l := at.NewList("s", at.NewList(0, at.NewList("keep"))).SetTF("#1#1#1", v)
+		inner := l.GetList(1).GetList(1)
+		if inner.Count() != 2 || inner.Get(0) != "keep" {
+			panic("SetTF(\"#1#1#1\") replaced what was there: " + l.String())
+		}
+		return slot{l: inner, idx: 1}
+	}},
 	{"NewList-the-value-three-times", func(v any) slot { return slot{l: at.NewList(v, v, v), idx: 2} }},
 	{"Add-the-value-twice", func(v any) slot { return slot{l: at.NewList(0).Add(v, v), idx: 1} }},
 	{"Insert-next-to-itself", func(v any) slot { return slot{l: at.NewList(v).Insert(0, v).Insert(1, v), idx: 1} }},
@@ -693,6 +713,9 @@ func runC12(c *fw.Ctx) {
 		[]any{[]at.List{nil}, map[string]at.Object{"n": nil}}, []int{}, []string{}, []float64{}, []bool{}, []any{[]any{}, []int{}, map[string]any{}},
 		map[string]any{"i8": int8(-1), "u8": uint8(255), "i16": int16(-300), "u16": uint16(65535), "i32": int32(-70000), "u32": uint32(70000), "i64": int64(-1), "u64": uint64(1), "u": uint(2), "f32": float32(1.5)},
 	}
+	// strings are byte strings: what is not UTF-8 is stored as it is, through every flavour that carries strings
+	flav = append(flav, []string{"\xff", "a\x80b", "\xed\xa0\x80", "ok", "\xc0\xaf"}, map[string]string{"k": "\xfe", "\xc0\xaf": "v", "plain": "\xf5\x80"},
+		[]any{[]string{"\xf5"}, map[string]string{"a": "\x80"}, "\xff\xfe"}, map[string]any{"s": []string{"\xe2\x82"}, "\x80": "key"})
 	// deeply nested native values (9..40 levels of []any / map[string]any in every alternation)
 	for depth := 9; depth <= 40; depth += []int{1, 1, 2, 3, 5, 8}[(depth-9)%6] {
 		for variant := 0; variant < 3; variant++ {
